@@ -721,6 +721,8 @@ def run(ck):
         "closed first-order types: no type variables, no fn:Fun / fn:Rel / fn:Option; struct types written with required "
         "fields first; singleton types of name constants (what WellformedType admits)",
         "soundness theorem holds on the fragment `nice` (strict and implemented judgement agree); outside it: findings F7b, F7c, F7f",
+        "bound lists with a tagged union are judged unless an argument conforms to the tagged union only through the /name "
+        "expansion of its tag (F7f; decided per list by the judge: Fixed bound differs from Strict bound)",
         "sort.Slice by Hash() in UpperBound enters the model as the order reported by the harness"])
 
 
@@ -748,9 +750,13 @@ META = {
             "members of all. Every run executes the real functions on generated pools of types x universes of constants "
             "(exhaustive over a depth-2 grammar in the thorough tier; a weighted stream of unions that overlap alternative by "
             "alternative - nested name prefixes, singletons, lists / pairs / maps / structs of them - handed to both bounds in "
-            "every order with the constants that separate the alternatives), judges the three implications directly on Go's "
+            "every order with the constants that separate the alternatives; a weighted stream of tagged unions against struct "
+            "types that overlap one variant with the tag field typed wider than the variant's tag, both orders, with and "
+            "without /any, with the constants that separate the tags), judges the three implications directly on Go's "
             "own answers and compares every answer with the model inside Coq.",
     "note": "Trusted: Coq kernel + vm_compute; the model is tied to the code by differential runs (sampled; exhaustive on "
             "the depth-2 grammar); fragment: no type variables / function / relation / option types; outside `nice` the "
-            "property fails on the real code (known findings F7b map keys, F7c struct width, F7f tagged union on the right).",
+            "property fails on the real code (known findings F7b map keys, F7c struct width, F7f tagged union on the right). "
+            "Bound lists are classified one by one (Fixed bound = Strict bound): a list with a tagged union is outside only "
+            "when some argument conforms to the tagged union through its /name expansion.",
 }
